@@ -274,7 +274,7 @@ def negative_texts(draw):
     t = d['type']
     names = [n for n in d if n not in ('type', 'time', 'data')]
     kind = draw(st.sampled_from(['unknown-type', 'no-eq', 'empty-val', 'non-numeric', 'fraction', 'dup', 'foreign',
-                                 'type-eq', 'range', 'paren', 'blank', 'space-in-pair', 'dup-time', 'hex']))
+                                 'type-eq', 'range', 'paren', 'blank', 'space-in-pair', 'dup-time', 'hex', 'option-word']))
     if kind == 'unknown-type':
         words[0] = draw(st.sampled_from(['note', 'noteon', 'NOTE_ON', 'foo', 'sysex_', '0', 'end_of_track', 'set_tempo']))
     elif kind == 'no-eq':
@@ -303,6 +303,13 @@ def negative_texts(draw):
         other = [n for n in list(R.RANGES) + ['data'] if n not in d]
         n = draw(st.sampled_from(other))
         words.append(f'{n}=(1)' if n == 'data' else f'{n}=0')
+    elif kind == 'option-word':
+        # names of constructor OPTIONS are not attributes: a text cannot switch validation off
+        words.insert(draw(st.integers(1, len(words))), draw(st.sampled_from(['skip_checks=1', 'skip_checks=0', 'skip_checks=2',
+                                                                             'self=1', 'args=1', 'kwargs=1', 'cl=1'])))
+        if names and draw(st.booleans()):
+            n = draw(st.sampled_from(names))
+            words = [w for w in words if not w.startswith(n + '=')] + [f'{n}={R.RANGES[n][1] + 1}']
     elif kind == 'type-eq':
         words.append('type=' + draw(st.sampled_from([t, 'note_off', '1', 'clock'])))
     elif kind == 'range':
